@@ -37,14 +37,23 @@ TraceInit ==
 
 TraceReset ==
     /\ Is("reset") /\ Step /\ bad' = bad /\ mh' = [v \in {} |-> ""]
-    /\ kr' = Ev.kr /\ ke' = Ev.ke /\ spal' = Ev.spal
+    (* the options of the history: the pair handed to the store, or - when the history was configured
+       with a strategy string - what the TRANSCRIPTION of NewPruningOptionsFromString makes of it
+       (the real store got its options from the real function; Ev.kr / Ev.ke then only say what
+       that returned) *)
+    /\ strat' = Ev.strat
+    /\ kr' = IF Ev.strat = NoStrategy THEN Ev.kr ELSE StrategyOpts(Ev.strat)[1]
+    /\ ke' = IF Ev.strat = NoStrategy THEN Ev.ke ELSE StrategyOpts(Ev.strat)[2]
+    /\ spal' = Ev.spal
+    /\ PrintT(<<"CONF", ToJson([line |-> l, strat |-> Ev.strat, kr |-> kr', ke |-> ke',
+                                same |-> (kr' = Ev.kr /\ ke' = Ev.ke)])>>)
     /\ disk' = [s \in Stores |-> [v \in {} |-> 0]]
     /\ cinfo' = [v \in {} |-> 0]
     /\ latest' = 0
     /\ up' = FALSE /\ bricked' = FALSE
     /\ VolatileReset
     /\ blocks' = <<>> /\ committed' = <<>> /\ block' = <<>> /\ started' = FALSE /\ todo' = <<>>
-    /\ crashes' = 0 /\ dirty' = FALSE /\ budget' = MaxWrites /\ cplan' = {}
+    /\ crashes' = 0 /\ dirty' = FALSE /\ budget' = MaxWrites /\ cplan' = {} /\ lleft' = 0
     /\ hist' = <<>> /\ fin' = FALSE
 
 TraceOpen ==
@@ -130,6 +139,27 @@ TraceQuery ==
                  <<(Ev.proof /\ r.proof) => got = ver, "model:verifying-heights-differ">>,
                  <<Ev.proof => Len(Ev.forged) = 0, "proof-proves-something-else">> >>)
 
+(* LoadVersion(v) on the live handle; the event carries the handle's state before (p...) and after *)
+TraceLiveLoad ==
+    /\ Is("liveload") /\ Step /\ mh' = mh
+    /\ LiveLoad(Ev.v)
+    /\ LET r == LoadMS(Ev.v)
+           ret == Ev.v \in 1..latest /\ Retained(Ev.v, latest)
+           agree == r.ok = Ev.ok IN
+       Checks(<< (* the property *)
+                 <<(ret /\ ~dirty) => Ev.ok, "retained-version-unreadable">>,
+                 <<(~ret /\ ~dirty) => ~Ev.ok, "pruned-version-readable">>,
+                 <<~Ev.ok => (Ev.ver = Ev.pver /\ Ev.hash = Ev.phash /\ SameStores(Ev.stores, Ev.pstores)
+                              /\ SameMap(Ev.trans, Ev.ptrans)), "failed-load-changes-handle">>,
+                 <<Ev.ok => Ev.ver = Ev.v, "live-load-wrong-version">>,
+                 <<Ev.ok => (Ev.v <= Len(committed) /\ SameStores(Ev.stores, committed[Ev.v]) /\ DOMAIN Ev.trans = {}),
+                   "live-load-wrong-content">>,
+                 <<(Ev.ok /\ Ev.v \in DOMAIN mh) => Ev.hash = mh[Ev.v], "live-load-hash-differs-from-commit">>,
+                 (* conformance with the implementation-shaped operators *)
+                 <<agree, "model:load-outcome-differs">>,
+                 <<agree => (Ev.ver = hver' /\ SameStores(Ev.stores, work') /\ SameMap(Ev.trans, trans')),
+                   "model:live-load-state-differs">> >>)
+
 (* a durable write of Commit that is none of the protocol's (logged for the write-log checks of
    C13): no step of the model, the state does not change *)
 TraceOther ==
@@ -145,7 +175,8 @@ TraceDone ==
 
 TraceNext ==
     \/ TraceReset \/ TraceOpen \/ TraceWrite \/ TraceCommitStart \/ TraceSave \/ TracePrune
-    \/ TraceTCommit \/ TraceFlush \/ TraceLoad \/ TraceQuery \/ TraceRestart \/ TraceOther \/ TraceDone
+    \/ TraceTCommit \/ TraceFlush \/ TraceLoad \/ TraceQuery \/ TraceLiveLoad \/ TraceRestart \/ TraceOther
+    \/ TraceDone
 
 TraceSpec == TraceInit /\ [][TraceNext]_tvars
 =============================================================================
